@@ -692,6 +692,12 @@ fn wrappings(c: &Case) -> Vec<Case> {
     v
 }
 
+/// closures over variables of a try statement that is left by an exception, a return, a handled exception
+/// (F6, F9): also run by C08 - the handling function's variables are intact whatever closures were made
+pub fn cases_for_c08() -> Vec<Case> {
+    f6().into_iter().chain(f9()).collect()
+}
+
 pub fn cases_for_c04(thorough: bool) -> Vec<Case> {
     let mut v = f1(thorough);
     v.extend(f2());
